@@ -19,6 +19,7 @@ LEAN = f'{ROOT}/lean'
 HARNESS = f'{ROOT}/harness'
 BUILD = f'{ROOT}/build'
 BIN = f'{BUILD}/target/debug/cbharness'
+BIN_REL = f'{BUILD}/target/release/cbharness'   # the same harness, release profile (no overflow checks, no debug assertions)
 MODEL = f'{LEAN}/.lake/build/bin/cbmodel'
 sys.path.insert(0, f'{ROOT}/tools')
 import stmts  # noqa
@@ -184,15 +185,20 @@ def env_names(binary):
     return names
 
 
-def build_harness():
+def build_harness(release=False):
     with Lock('cargo'):
         # keep the lock file in step with /repo's (path dependencies resolve through it)
-        rc, out = sh(['cargo', 'build'], cwd=HARNESS, env={'RUSTFLAGS': '--cfg clock_bound_verif', 'CARGO_NET_OFFLINE': 'true'}, timeout=3000)
+        rc, out = sh(['cargo', 'build'] + (['--release'] if release else []), cwd=HARNESS, env={'RUSTFLAGS': '--cfg clock_bound_verif', 'CARGO_NET_OFFLINE': 'true'}, timeout=3000)
     return rc, out
 
 
-def run_harness(args, stdin_text=None, timeout=3000):
-    rc, out = sh([BIN] + [str(a) for a in args], inp=stdin_text, timeout=timeout)
+def run_harness(args, stdin_text=None, timeout=3000, release=False):
+    # the C client process (dev build of the cdylib) sits next to the dev binary
+    rc, out = sh([BIN_REL if release else BIN] + [str(a) for a in args], inp=stdin_text, timeout=timeout,
+                 env={'CBH_CCLIENT': f'{BUILD}/target/debug/cclient'} if release else None)
+    if release:
+        # the profile travels with the request (`… @release => answer`), so that a replay uses the same binary
+        out = '\n'.join((l.replace(' => ', ' @release => ', 1) if ' => ' in l else l) for l in out.splitlines())
     return rc, out
 
 
@@ -238,8 +244,13 @@ def run_requests(reqs):
     for k in dict.fromkeys(r.split(' ', 1)[0] for r in ext):
         lines += props.EXTERNAL[k]([r for r in ext if r.split(' ', 1)[0] == k])
     rest = [r for r in reqs if r not in ext]
+    rel = [r for r in rest if r.endswith(' @release')]
+    rest = [r for r in rest if not r.endswith(' @release')]
     if rest:
         rc, out = run_harness(['replay'], stdin_text='\n'.join(rest) + '\n')
+        lines += out.splitlines()
+    if rel:
+        rc, out = run_harness(['replay'], stdin_text='\n'.join(r[:-len(' @release')] for r in rel) + '\n', release=True)
         lines += out.splitlines()
     return lines
 
@@ -350,6 +361,21 @@ def check(pid, tier, seed):
             path = write_replay(pid, seed, 'harness', {'property': pid, 'what': 'harness run failed', 'args': g, 'log': out[-4000:]})
             print(f'VIOLATION property={pid} replay={path} no-failing-input-found'); return 1
         lines += out.splitlines()
+    # release profile: the same generators through the harness built with the release profile (what is shipped: no
+    # overflow checks, no debug assertions). Where the model predicts a panic of the dev profile the release build
+    # has no defined counterpart (it wraps), so those cases are dropped after evaluation.
+    for g in (cfg.get('release_gens')(seed, thorough) if cfg.get('release_gens') else []):
+        rcb, outb = build_harness(release=True)
+        if rcb != 0:
+            path = write_replay(pid, seed, 'build', {'property': pid, 'what': 'harness does not build against /repo working tree in the release profile', 'log': outb[-4000:]})
+            print(outb[-3000:]); print(f'VIOLATION property={pid} replay={path} no-failing-input-found'); return 1
+        rc, out = run_harness(g, release=True)
+        if rc == 3 and out.rstrip().endswith('=> hang'): rc = 0
+        if rc != 0:
+            print(out[-2000:]); print(f'harness (release) failed: {g}')
+            path = write_replay(pid, seed, 'harness', {'property': pid, 'what': 'harness run failed (release profile)', 'args': g, 'log': out[-4000:]})
+            print(f'VIOLATION property={pid} replay={path} no-failing-input-found'); return 1
+        lines += out.splitlines()
     # hostile environment: every environment-variable-like name the harness binary (= the libraries under test)
     # mentions that could concern the client/segment code is set, and a sample of this run's requests is executed
     # again: nothing these libraries do may depend on the environment (the modifier travels with the request, so
@@ -366,6 +392,7 @@ def check(pid, tier, seed):
             extra = [f"{r} @env {' '.join(n + '=' + v for n in names[:16])}" for v in ('0', '1', 'x') for r in base]
             lines += run_requests(extra)
     cases = evaluate(lines)
+    cases = [c for c in cases if not (c.req.endswith(' @release') and 'panic' in c.model)]
     relevant = [c for c in cases if c.hang or cfg.get('relevant', lambda c: True)(c)]
     # 2. separate accounting: oracle failures on impl output, model disagreements
     known = [k for k in load_known()['findings'] if k['property'] == pid and k.get('status') == 'known']
@@ -509,6 +536,9 @@ def setup():
     if rc != 0: return rc
     rc, out = build_harness()
     print(out[-1500:])
+    if rc != 0: return rc
+    rc, out = build_harness(release=True)
+    print(out[-800:])
     if rc != 0: return rc
     ok, note = run_translator()
     print('translator:', note)
